@@ -300,6 +300,17 @@ void vf::run_case(Src &s, Ctx &c)
     {
         CountPTC ptc(&c);
         ptc.limit = (long)(std::exp(s.real(std::log(50.0), std::log(3000.0))) * pi.budgetScale);
+        // a quarter of the continued solves are preceded by the caller dropping the stored paths (ProblemDefinition::clearSolutionPaths(), as the
+        // repository's own optimisation tests do between rounds): what the planner reports afterwards must still not be worse than what it
+        // reported before. Decided by the already decoded budget, so that saved cases keep their meaning.
+        bool dropped = false;
+        if (k > 0 && ptc.limit % 4 == 1)
+        {
+            P->pdef->clearSolutionPaths();
+            dropped = true;
+            c.count("history:clearSolutionPaths-before-continued-solve");
+            c.note("clearSolutionPaths\n");
+        }
         ob::PlannerStatus st;
         try
         {
@@ -365,8 +376,9 @@ void vf::run_case(Src &s, Ctx &c)
             {
                 // first exact entry = best exact
                 if (haveBest && mine->isCostBetterThan(bestExact, sol.cost_) && std::fabs(bestExact.value() - sol.cost_.value()) > 1e-9 * (1 + std::fabs(sol.cost_.value())))
-                    c.failOrKnown("C04/best-cost-worsened" + pkey, vf::fmt("%s: best stored exact cost went from %.9g to %.9g on a continued solve", pi.name, bestExact.value(),
-                                                                           sol.cost_.value()));
+                    c.failOrKnown(std::string("C04/best-cost-worsened") + (dropped ? "(after-clearSolutionPaths)" : "") + pkey,
+                                  vf::fmt("%s: best stored exact cost went from %.9g to %.9g on a continued solve%s", pi.name, bestExact.value(), sol.cost_.value(),
+                                          dropped ? " that followed clearSolutionPaths()" : ""));
                 bestExact = sol.cost_;
                 haveBest = true;
                 break;
